@@ -40,6 +40,10 @@ type EventObs struct {
 	NewTip       wire.BlockHeader // for disconnects: header of the tip afterwards
 	BlockTipAt   uint32           // block store tip height read after receipt (informational)
 	StillStored  bool             // (disconnected) the block store still holds Header at Height after receipt
+	// MidProbe is the result of a backlog probe made right after this
+	// connected event was received, i.e. in the middle of a batch ("" = not
+	// probed or fine).
+	MidProbe string
 	FilterTipAt  uint32           // filter store tip height at receipt
 	FilterHasIt  bool             // (connected) filter store already holds a header at Height
 	BlockAtMatch bool             // (connected) block store's header at Height equals Header
@@ -88,6 +92,13 @@ type Session struct {
 
 	validated []wire.BlockHeader // C01 incremental validation cache
 	name      string
+
+	// NoMidProbe disables mid-batch backlog probes (sessions that inject a
+	// concurrent reorganisation, where the committed chain may change while
+	// the probe reads it).
+	NoMidProbe bool
+	nObserved  int
+	MidProbes  int
 }
 
 // Config of a session.
@@ -261,6 +272,10 @@ func (s *Session) observe(n blockntfns.BlockNtfn) EventObs {
 		if h, err := s.Stores.Block.FetchHeaderByHeight(n.Height()); err == nil && *h == n.Header() {
 			e.BlockAtMatch = true
 		}
+		s.nObserved++
+		if !s.NoMidProbe && n.Height() > 1 && (s.nObserved%97 == 1 || s.nObserved%97 == 50) {
+			e.MidProbe = s.midProbe(n.Height())
+		}
 	case *blockntfns.Disconnected:
 		e.NewTip = t.ChainTip()
 		if h, err := s.Stores.Block.FetchHeaderByHeight(n.Height()); err == nil && *h == n.Header() {
@@ -400,3 +415,35 @@ func WorkOf(hs []wire.BlockHeader) *big.Int { return ref.Work(hs) }
 func CalcWork(h *wire.BlockHeader) *big.Int { return blockchain.CalcWork(h.Bits) }
 
 var _ = btcutil.NewBlock
+
+// midProbe asks for a backlog in the middle of a batch of connected events:
+// a subscriber registering now must be offered exactly the committed blocks
+// above its height, where "committed" is what the filter store holds at this
+// moment (the batch was written before its events are emitted, and nothing
+// else changes the stores during a non-concurrent step).
+func (s *Session) midProbe(evHeight uint32) string {
+	s.MidProbes++
+	_, ft, err := s.Stores.Filter.ChainTip()
+	if err != nil {
+		return ""
+	}
+	h := evHeight - 1
+	if h > 3 && s.nObserved%2 == 0 {
+		h -= 3
+	}
+	ntfns, _, err := s.BM.NotificationsSinceHeight(h)
+	if err != nil {
+		return fmt.Sprintf("backlog from %d in the middle of a batch (event %d, committed filter tip %d) failed: %v", h, evHeight, ft, err)
+	}
+	if len(ntfns) != int(ft-h) {
+		return fmt.Sprintf("backlog from %d requested while the event for height %d was being delivered has %d entries; the committed filter tip is %d, so %d blocks are committed above it", h, evHeight, len(ntfns), ft, ft-h)
+	}
+	for i, n := range ntfns {
+		wh := h + 1 + uint32(i)
+		hd, err := s.Stores.Block.FetchHeaderByHeight(wh)
+		if err != nil || n.Height() != wh || n.Header() != *hd {
+			return fmt.Sprintf("mid-batch backlog entry %d is not the committed block at height %d", i, wh)
+		}
+	}
+	return ""
+}
